@@ -43,9 +43,50 @@ def _revert_edits(key):
     return [tuple(e) for e in hits[0]["edits"]]
 
 
+def _seed_edits(seed_id):
+    """(file, old, new) per hunk of /verif/seeded/<seed_id>/patch.diff (a change made by a sub-agent that breaks the property)."""
+    path = os.path.join(os.path.dirname(os.path.dirname(os.path.dirname(os.path.abspath(__file__)))), "seeded", seed_id, "patch.diff")
+    edits, file, old, new = [], None, None, None
+
+    def flush():
+        if file and old is not None and (old or new):
+            edits.append((file, "".join(old), "".join(new)))
+    with open(path, encoding="utf-8") as fh:
+        for line in fh:
+            if line.startswith("+++ "):
+                flush()
+                old = new = None
+                file = line[4:].strip()
+                file = file[2:] if file.startswith("b/") else file
+            elif line.startswith("@@"):
+                flush()
+                old, new = [], []
+            elif line.startswith(("diff ", "index ", "--- ", "new file", "deleted file", "similarity", "rename ")):
+                continue
+            elif old is not None:
+                if line.startswith(" "):
+                    old.append(line[1:])
+                    new.append(line[1:])
+                elif line.startswith("-"):
+                    old.append(line[1:])
+                elif line.startswith("+"):
+                    new.append(line[1:])
+                elif line.startswith("\\"):
+                    pass
+                elif line == "\n":
+                    old.append(line)
+                    new.append(line)
+    flush()
+    if not edits:
+        raise SyntaxError(f"no hunks in {path}")
+    return edits
+
+
 def _apply(case, repo):
     if "revert" in case:
         edits = _revert_edits(case["revert"])
+    elif "seed" in case:
+        edits = _seed_edits(case["seed"])
     else:
         edits = case.get("edits") or [(case["file"], case["old"], case["new"])]
     ov = {}
